@@ -4,8 +4,9 @@ CONSTANTS
   Maxes = {1}
   Paths = {"single", "multi", "resolver"}
   KindsOf <- MCKindsFull
+  OthersOf <- MCPartners
   KindIndex <- MCKindIndex
-  Sorted = TRUE
+  Sorted = FALSE
   KnownDefects = {"C43-check-then-start"}
   Depth = 12
   Log <- LogAppend
